@@ -60,6 +60,8 @@ KINDS = [
     "arrinner", "arrinnerstr",
     # ragged 2-D entries, some of them with a zero-length dimension (shape (2, 0))
     "raggedzerodim",
+    # entries that are themselves ragged (a list of rows of differing lengths)
+    "innerragged",
 ]
 PATTERNS = ["none", "some", "all", "first", "last", "allbutone"]
 LEVELS = ["block", "assembly", "component", "core"]
@@ -147,6 +149,9 @@ def make_collection(kind, n, pattern, seedv):
         if kind == "raggedzerodim":
             k_ = g.next() % 3
             return np.array([[g.choice(fl) for _ in range(k_)] for _ in range(2)], dtype=float)
+        if kind == "innerragged":
+            rows = g.randint(2, 3)
+            return [[g.choice(fl) for _ in range(1 + (g.next() + r_) % 2 if r_ else 2)] for r_ in range(rows)][:: 1 if g.next() % 2 else -1]
         if kind == "arrinner":
             return [None if g.next() % 3 == 0 else g.choice(fl) for _ in range(3)]
         if kind == "arrinnerstr":
@@ -294,7 +299,7 @@ def JaggedFlat(x):
         yield x
 
 
-REAL_KINDS = {"raggedzerodim", "arrinner", "ragged2F", "arr2F", "float", "floatx", "npfloat32", "arr1", "arr2", "arrnan", "nested", "tuple", "ragged", "ragged2", "raggedscalar", "raggedempty", "dict", "dictx"}
+REAL_KINDS = {"innerragged", "raggedzerodim", "arrinner", "ragged2F", "arr2F", "float", "floatx", "npfloat32", "arr1", "arr2", "arrnan", "nested", "tuple", "ragged", "ragged2", "raggedscalar", "raggedempty", "dict", "dictx"}
 
 
 def is_sentinel(v):
